@@ -342,14 +342,21 @@ class NegateExpression(UnaryExpression):
         return -value
 
     def __str__(self) -> str:
-        inner: Union[Optional[MathExpression], str] = self.get_child()
-        binary_types = (
-            AddExpression,
-            SubtractExpression,
+        inner: Optional[MathExpression] = self.get_child()
+        text = f"{inner}"
+        # "-<text>" must read back as the negation of the whole operand: wrap sums,
+        # spaced products/quotients (-(a / b) * c is not -a / b * c), operands that
+        # start with a sign themselves, and powers/factorials whose text starts with
+        # a literal (-2^2 is (-2)^2 and -5! is (-5)!).
+        loose = isinstance(inner, (AddExpression, SubtractExpression)) or (
+            isinstance(inner, (MultiplyExpression, DivideExpression)) and " " in text
         )
-        if isinstance(inner, binary_types):
-            inner = f"({inner})"
-        return self.with_color("-{}".format(inner))
+        literal_first = isinstance(inner, (PowerExpression, FactorialExpression)) and (
+            text[:1].isdigit() or text[:1] == "."
+        )
+        if loose or literal_first or text.startswith("-"):
+            text = f"({text})"
+        return self.with_color("-{}".format(text))
 
     def to_math_ml_fragment(self) -> str:
         """Convert this single node into MathML."""
@@ -665,7 +672,18 @@ class PowerExpression(BinaryExpression):
         return np.power(one, two)
 
     def __str__(self) -> str:
-        return "{}{}{}".format(self.left, self.with_color(self.name), self.right)
+        left_text = f"{self.left}"
+        right_text = f"{self.right}"
+        # A negation, a power or a compact product (4x) as the base needs its own
+        # parentheses: (-x)^2, (x^2)^3, (4x)^2. So does a power as the exponent.
+        compact_product = isinstance(
+            self.left, MultiplyExpression
+        ) and not left_text.startswith("(")
+        if isinstance(self.left, (NegateExpression, PowerExpression)) or compact_product:
+            left_text = f"({left_text})"
+        if isinstance(self.right, PowerExpression):
+            right_text = f"({right_text})"
+        return "{}{}{}".format(left_text, self.with_color(self.name), right_text)
 
 
 class ConstantExpression(MathExpression):
